@@ -49,29 +49,34 @@ SHIMS = ["math.isnan/isinf/isfinite dispatch on proxies", "asyncio.wait inside _
 
 
 class Livelock(BaseException):
-    """The event loop made no progress in wall-clock time (code under test spins without ever blocking)."""
+    """The event loop ran an absurd number of iterations without finishing (code under test spins without ever blocking)."""
 
 
-def _alarm(signum, frame):
-    raise Livelock()
+class GuardLoop(async_solipsism.EventLoop):
+    LIMIT = 200_000
+
+    def __init__(self):
+        super().__init__()
+        self._iterations = 0
+
+    def _run_once(self):
+        self._iterations += 1
+        if self._iterations > self.LIMIT:
+            raise Livelock()
+        return super()._run_once()
 
 
-def run_loop(coro, wall_limit_s=20):
-    import signal
-
-    loop = async_solipsism.EventLoop()
-    old = signal.signal(signal.SIGALRM, _alarm)
-    signal.setitimer(signal.ITIMER_REAL, wall_limit_s)
+def run_loop(coro):
+    loop = GuardLoop()
     try:
         return loop.run_until_complete(coro)
     finally:
-        signal.setitimer(signal.ITIMER_REAL, 0)
-        signal.signal(signal.SIGALRM, old)
         try:
             pend = [t for t in asyncio.all_tasks(loop) if not t.done()]
             for t in pend:
                 t.cancel()
             if pend:
+                loop._iterations = 0
                 loop.run_until_complete(asyncio.gather(*pend, return_exceptions=True))
         except BaseException:  # noqa: BLE001
             pass
